@@ -222,7 +222,8 @@ def run(tier, seed, replay):
     rep.rule = ("all operation sequences up to length %d over a 39-operation alphabet (set INT/STR/BOOL/JSON with and without replace on "
                 "colliding names, whole-object merges, malformed/duplicate/scalar JSON, empty and NULL names, typed gets, deletes) on "
                 "builder headers/claims and on the jwt_t inside builder and checker callbacks, then random sequences to length 40 with "
-                "boundary values; after every operation the whole object is dumped and compared (type-strict) with a dict model. "
+                "boundary values, then a size sweep (a string member of N-18..N+2 characters for N in 16..65536, so that the JSON text of the object, "
+                "of the member and of the pretty forms takes every length around the usual buffer sizes); after every operation the whole object is dumped and compared (type-strict) with a dict model. "
                 "distinct = distinct (target, op kind, type, name existed?, replace, expected code) tuples" % L)
     rep.assumptions = ["whole-object set of an array, NULL JSON text, typed get with an empty name and invalid UTF-8 strings are unjudged "
                        "except that they must not change the object", "strings are compared as byte strings"]
@@ -234,7 +235,9 @@ def run(tier, seed, replay):
     nr = 500000 if tier == "thorough" else 20000
     outs2, crashes2 = vf.run_shards(b, ["--mode", "rand", "--n", nr, "--seed", seed], vf.NCPU, rd, tag="r", timeout=3000)
     rep.crash_violations(crashes2, prefix="rand:")
-    for r in vf.pmap(judge, [(p,) for p in outs + outs2]):
+    outs3, crashes3 = vf.run_shards(b, ["--mode", "size", "--seed", seed], vf.NCPU, rd, tag="z", timeout=3000)
+    rep.crash_violations(crashes3, prefix="size:")
+    for r in vf.pmap(judge, [(p,) for p in outs + outs2 + outs3]):
         rep.evaluations += r["n"]
         rep.distinct |= r["distinct"]
         for k, what, wit in r["viol"]:
